@@ -76,6 +76,13 @@ def register(M):
         return f(*ps)
     SF['count'] = sf_count
 
+    def b_card(args, kw, st, node):
+        S = st.deref(args[0])
+        if isinstance(S, SList):
+            S = set_of_list(S)
+        return M.set_card(S, st)
+    B['card'] = b_card
+
     def b_card_le(args, kw, st, node):
         raise Unsupported('card_le')
 
